@@ -337,6 +337,7 @@ pub fn run(tier: &str) -> i32 {
             prop: "C09",
             liveness: true,
             upgrade_transparency: true,
+            syncing_toggles: false,
         };
         let e = explore(&m, &Limits::new(3, if quick { 300 } else { 6000 }));
         rep.absorb(
